@@ -18,7 +18,7 @@ TRUSTED = [
     "derive(PartialEq) compares every field; [u8; N] == [u8; N] compares every byte",
 ]
 NOT_DECIDED = ["that a changed hash input changes the SHA-1 output", "that a different password yields a different verifier"]
-FLOORS = {"binding": 5, "gate": 2, "whole-value": 2, "operands": 2, "error-content": 2, "who-may-construct": 2, "transcript": 2, "ok-content": 2, "credential-identity": 6, "validated-key": 3}
+FLOORS = {"binding": 12, "gate": 2, "whole-value": 2, "operands": 2, "error-content": 2, "who-may-construct": 2, "transcript": 2, "ok-content": 2, "credential-identity": 6, "validated-key": 3}
 
 
 def applicable(feats):
@@ -128,6 +128,11 @@ def check(ctx, rep):
     rf = util.Refile(rep, "binding", {"transcript", "formula"}, lambda fn: fn in binding)
     c03.transcripts(ctx, rf)
     c03.formulas(ctx, rf)
+    # ... and on the session key both proofs are computed over: K = interleave(S) with S's
+    # leading zero bytes dropped in pairs.  A server whose interleave differs from the protocol's
+    # on some S refuses the proof "determined by verifier, salt, username and the public keys"
+    # for those logins (round 11, change C02-11): C03's interleave obligations are necessary here.
+    c03.interleave_rules(ctx, util.Refile(rep, "binding", {"interleave"}, None))
     R = roles.srp_roles(ctx)
     rp = roles.inv(R["SrpProof"])
     for need in ("U", "B", "salt", "b", "v"):
